@@ -71,7 +71,17 @@ def build(seed, tier):
             fn = ro.choice(sorted(histories.LIB_FUNCS))
             op = {'op': 'call', 'fn': fn, 'args_src': [histories.gen_arg(ro, k) for k in histories.LIB_FUNCS[fn]]}
             if fn == 'kw' and ro.random() < 0.6:
-                op['kwargs'] = ro.choice([{'b': 5}, {'c': 7}, {'b': 1, 'c': 1}])
+                c2 = ro.random()
+                if c2 < 0.5:
+                    op['kwargs'] = ro.choice([{'b': 5}, {'c': 7}, {'b': 1, 'c': 1}])
+                elif c2 < 0.75:
+                    op['function_kwargs'] = ro.choice([{'b': 4}, {'c': 6, 'b': 0}])
+                else:
+                    op['kwargs_locals'] = ro.choice([{'b': 'counter'}, {'c': 'counter + 1'}])
+            if fn in ('echo', 'ident', 'size') and ro.random() < 0.2:
+                op['args_locals'] = [ro.choice(['counter', 'str(counter)', '[counter, counter]'])]
+            if ro.random() < 0.12:
+                op['target'] = ro.choice(['result_box', 'answer_value'])
         elif c < 0.75 and gen_funcs:
             name, npar, kind = ro.choice(gen_funcs)
             op = {'op': 'call', 'fn': name, 'args_src': [repr(ro.choice([0, 1, 2, -4, 9, 10 ** 30])) for _ in range(npar)]}
@@ -122,8 +132,11 @@ SANDBOX_OWN_NAMES = {'_', 'compile', 'eval', 'exec', 'exit', 'globals', 'input',
 
 def judge(spec, res):
     vs = []
+    targets = {'_'}          # names the instructor asked results to be stored under (so far in this history)
     for op, o in zip(spec['ops'], res['obs']):
         kind = op['op']
+        if op.get('target'):
+            targets.add(op['target'])
         if kind not in sbx.EXEC_OPS:
             continue
         ref = o.get('ref')
@@ -182,7 +195,7 @@ def judge(spec, res):
                 if names[k] != v and list(names[k]) != list(v):
                     viol('global-value-differs', '%s: CPython %r, sandbox %r' % (k, v, names[k]))
                     break
-            extra = [k for k in names if k not in rnames and k not in SANDBOX_OWN_NAMES and k != op.get('target', '_')]
+            extra = [k for k in names if k not in rnames and k not in SANDBOX_OWN_NAMES and k not in targets]
             if extra:
                 viol('global-extra', 'sandbox.data has %r which CPython does not define' % (extra[:4],),
                      'temporary' if any(k.startswith('_temporary_') for k in extra) else '')
